@@ -485,7 +485,7 @@ func Partition(kind string, n int, r *rand.Rand) []int {
 
 // ReadPlan decides the buffer length passed to each Reader.Read call.
 type ReadPlan struct {
-	Kind string `json:"kind"` // fixed | prng | prng-small
+	Kind string `json:"kind"` // fixed | prng | prng-small | copy | head-copy
 	K    int    `json:"k,omitempty"`
 	Seed int64  `json:"seed,omitempty"`
 }
@@ -496,6 +496,11 @@ func (p ReadPlan) String() string {
 	}
 	return p.Kind
 }
+
+// CopyStyle: the plan takes (part of) the stream through io.Copy instead of Read calls of its own:
+// "copy" from the first byte, "head-copy" after a PRNG number of bytes taken with Read calls (directly or
+// through a bufio.Reader that has read a line). The buffer sizes of the Read calls are those of "prng".
+func (p ReadPlan) CopyStyle() bool { return p.Kind == "copy" || p.Kind == "head-copy" }
 
 // FixedBufs are the buffer sizes named in the properties.
 var FixedBufs = []int{1, 2, 3, 7, 59, 60, 61, 4096}
@@ -518,14 +523,18 @@ func (p ReadPlan) Sizer() func() int {
 	panic("lzwork: unknown read plan " + p.Kind)
 }
 
-// PickReadPlan rotates through the fixed buffer sizes and the two PRNG plans.
+// PickReadPlan rotates through the fixed buffer sizes, the two PRNG plans and the two copy-style plans.
 func PickReadPlan(i uint64, seed int64) ReadPlan {
-	n := uint64(len(FixedBufs) + 2)
+	n := uint64(len(FixedBufs) + 4)
 	switch j := i % n; {
 	case j < uint64(len(FixedBufs)):
 		return ReadPlan{Kind: "fixed", K: FixedBufs[j]}
 	case j == uint64(len(FixedBufs)):
 		return ReadPlan{Kind: "prng", Seed: seed + int64(i)}
+	case j == uint64(len(FixedBufs))+1:
+		return ReadPlan{Kind: "copy", Seed: seed + int64(i)}
+	case j == uint64(len(FixedBufs))+2:
+		return ReadPlan{Kind: "head-copy", Seed: seed + int64(i)}
 	default:
 		return ReadPlan{Kind: "prng-small", Seed: seed + int64(i)}
 	}
